@@ -470,6 +470,17 @@ def _is_zero_t(t):
     return isinstance(t, Term) and t.op == "const" and isinstance(t.args[0], (int, float, Fraction)) and not isinstance(t.args[0], bool) and t.args[0] == 0
 
 
+def _arange_bound(z):
+    """k if z is the index vector 0 .. k-1 (np.arange(k), np.arange(n)[:k], with or without an integer cast)"""
+    while isinstance(z, Term) and z.op == "astype" and z.args and isinstance(z.args[0], Term):
+        z = z.args[0]
+    if isinstance(z, Term) and z.op == "arange" and len(z.args) == 1 and isinstance(z.args[0], Term):
+        return z.args[0]
+    if isinstance(z, Term) and z.op == "getitem" and len(z.args) == 2 and isinstance(z.args[0], Term) and _arange_bound(z.args[0]) is not None and isinstance(z.args[1], Term) and z.args[1].op == "slice" and len(z.args[1].args) == 3 and _is_none_t(z.args[1].args[0]) and _is_none_t(z.args[1].args[2]) and isinstance(z.args[1].args[1], Term) and not _is_none_t(z.args[1].args[1]):
+        return z.args[1].args[1]
+    return None
+
+
 def _truth_of(c):
     """the truth value of a condition, written as `any` of a mask where it is one:
     a non-zero count of m, min(v) < c, max(v) > c  are  any(m), any(v < c), any(v > c)"""
@@ -1123,10 +1134,10 @@ class Normalizer:
                     return self.nf(Term("arange", idx.args[1]))
                 if idx.op in ("lt", "le", "gt", "ge", "invert", "bitand", "bitor", "eq", "ne"):
                     return self.nf(Term("nonzero1", idx))
-            if isinstance(idx, Term) and idx.op == "arange" and len(idx.args) == 1 and isinstance(idx.args[0], Term):
-                return self.nf(Term("getitem", base, Term("slice", Term("const", None), idx.args[0], Term("const", None))))
-            if isinstance(idx, Term) and idx.op == "tuple" and len(idx.args) == 2 and _term_full_slice(idx.args[0]) and isinstance(idx.args[1], Term) and idx.args[1].op == "arange" and len(idx.args[1].args) == 1 and isinstance(idx.args[1].args[0], Term):
-                return self.nf(Term("getitem", base, Term("tuple", idx.args[0], Term("slice", Term("const", None), idx.args[1].args[0], Term("const", None)))))
+            if _arange_bound(idx) is not None:
+                return self.nf(Term("getitem", base, Term("slice", Term("const", None), _arange_bound(idx), Term("const", None))))
+            if isinstance(idx, Term) and idx.op == "tuple" and len(idx.args) == 2 and _term_full_slice(idx.args[0]) and _arange_bound(idx.args[1]) is not None:
+                return self.nf(Term("getitem", base, Term("tuple", idx.args[0], Term("slice", Term("const", None), _arange_bound(idx.args[1]), Term("const", None)))))
             # selecting entries of an elementwise power: (x**k)[sel] = (x[sel])**k
             if isinstance(base, Term) and base.op == "pow" and len(base.args) == 2 and isinstance(base.args[1], Term) and base.args[1].op == "const" and isinstance(base.args[0], Term) and isinstance(idx, Term) and idx.op in ("lt", "le", "gt", "ge", "nonzero1", "invert", "bitand", "bitor"):
                 return self.nf(Term("pow", Term("getitem", base.args[0], idx), base.args[1]))
@@ -1215,6 +1226,8 @@ class Normalizer:
                 if v2 is not None:
                     return self.nf(Term("where3", idx, v2, base))
             return P_atom(A("store", wrap(self.nf(base)), fi, wrap(self.nf(val))))
+        if op == "store" and len(a) == 3 and isinstance(a[1], Term) and a[1].op == "diagidx" and isinstance(a[2], Term) and a[2].op == "const":
+            return P_atom(A("fill_diagonal", wrap(self.nf(a[0])), self.freeze(a[2])))  # a[np.diag_indices_from(a)] = c
         if op == "where3" and len(a) == 3 and isinstance(a[0], Term) and a[0].op == "store" and len(a[0].args) == 3:
             # where(m, x, c) with the mask m = (all True, then m[idx] = False): x with x[idx] = c
             mb, midx, mval = a[0].args
